@@ -76,7 +76,9 @@ type packSpec struct {
 	oid    int32
 	lic    string // "" = client default
 	via    int    // entry point: 0 Send, 1 SendFlush(flush=false), 2 SendFlush(flush=true)
-	style  int    // 1: decorated options (an earlier license a later one overrides, an explicit empty license, options that do not concern the frame)
+	style  int    // 0: plain (WithLicense alone, or no option); > 0: decorated, see decorate()
+	opts   []optItem // the per-send options in the order they are passed (nil with style 0: derived from lic)
+	share  bool   // the option OBJECTS are the scenario's shared ones (the same objects go into several sends)
 	n      int    // text length
 	div    byte
 	hash   int32
@@ -138,6 +140,21 @@ func (ps *packSpec) fields(e core.Ev) core.Ev {
 	e["pcode"] = core.W8(ps.pcode)
 	e["lic"] = lic
 	e["via"] = viaNames[ps.via%3]
+	// the per-send options as they are passed: the license arguments in their order ("-" = empty) for the
+	// specification to derive the license in effect from, and the whole list for the reader
+	ol, od := []string{}, []string{}
+	for _, o := range ps.options() {
+		if o.kind == "lic" {
+			if o.lic == "" {
+				ol = append(ol, "-")
+			} else {
+				ol = append(ol, o.lic)
+			}
+		}
+		od = append(od, o.String())
+	}
+	e["olics"] = ol
+	e["opts"] = od
 	e["ptype"] = 0x0700
 	e["plen"] = ps.plen
 	e["dg"] = core.Bytes(ps.dg)
@@ -145,6 +162,106 @@ func (ps *packSpec) fields(e core.Ev) core.Ev {
 }
 
 var viaNames = []string{"Send", "SendFlush/false", "SendFlush/true"}
+
+// optItem is one per-send option: WithLicense(lic) | WithPriority(b) | WithSecureFlag(f).
+type optItem struct {
+	kind string // "lic" | "pri" | "sec"
+	lic  string
+	b    bool
+	f    byte
+}
+
+func (o optItem) String() string {
+	switch o.kind {
+	case "lic":
+		return "lic:" + o.lic
+	case "pri":
+		return fmt.Sprintf("pri:%v", o.b)
+	}
+	return fmt.Sprintf("sec:%d", o.f)
+}
+
+func (o optItem) make() wnet.TcpClientOption {
+	switch o.kind {
+	case "lic":
+		return wnet.WithLicense(o.lic)
+	case "pri":
+		return wnet.WithPriority(o.b)
+	}
+	return wnet.WithSecureFlag(o.f)
+}
+
+// options: the option list of this send (style 0: the license override alone, if there is one).
+func (ps *packSpec) options() []optItem {
+	if ps.opts != nil {
+		return ps.opts
+	}
+	if ps.lic != "" {
+		return []optItem{{kind: "lic", lic: ps.lic}}
+	}
+	return nil
+}
+
+// decorate gives the send a decorated option list whose license in effect is still ps.lic: the license options in
+// their order (earlier ones that the last one overrides; an explicit empty license = no override) merged in EVERY relative order with options that do not concern the frame (priority,
+// secure flag; values false/0 too, the same kind twice).  `k` enumerates the merge orders systematically.
+func (ps *packSpec) decorate(r *rand.Rand, k int) {
+	var lics []optItem
+	switch {
+	case ps.lic != "" && k%4 == 3:
+		lics = []optItem{{kind: "lic", lic: "overridden-" + ps.lic}, {kind: "lic", lic: ps.lic}}
+	case ps.lic != "" && k%8 == 5:
+		lics = []optItem{{kind: "lic", lic: ""}, {kind: "lic", lic: "overridden-" + ps.lic}, {kind: "lic", lic: ps.lic}}
+	case ps.lic != "":
+		lics = []optItem{{kind: "lic", lic: ps.lic}}
+	case k%2 == 1:
+		lics = []optItem{{kind: "lic", lic: ""}}
+	}
+	pool := []optItem{{kind: "pri", b: true}, {kind: "sec", f: 1}, {kind: "pri", b: false}, {kind: "sec", f: 0},
+		{kind: "sec", f: 0x80}, {kind: "pri", b: true}}
+	var others []optItem
+	switch (k / 2) % 4 {
+	case 0:
+		others = []optItem{pool[k%2]}
+	case 1:
+		others = []optItem{pool[0], pool[1]}
+	case 2:
+		others = []optItem{pool[1+k%2], pool[(k/8)%len(pool)]}
+	default:
+		for i, n := 0, 1+r.Intn(3); i < n; i++ {
+			others = append(others, pool[r.Intn(len(pool))])
+		}
+	}
+	// merge: slot[i] = how many of the other options come before the i-th license option; the LAST license option
+	// takes every place from first to last in turn (k), the earlier ones anywhere before it
+	out := []optItem{}
+	if len(lics) == 0 {
+		out = append(out, others...)
+	} else {
+		last := (k / 3) % (len(others) + 1)
+		if k%3 == 0 {
+			last = 0 // the license in effect FIRST, everything else after it
+		} else if k%3 == 1 {
+			last = len(others)
+		}
+		slot := make([]int, len(lics))
+		slot[len(lics)-1] = last
+		for i := len(lics) - 2; i >= 0; i-- {
+			slot[i] = r.Intn(slot[i+1] + 1)
+		}
+		used := 0
+		for i, l := range lics {
+			for used < slot[i] {
+				out = append(out, others[used])
+				used++
+			}
+			out = append(out, l)
+		}
+		out = append(out, others[used:]...)
+	}
+	ps.opts = out
+	ps.share = k%5 == 2
+}
 
 // ---------------------------------------------------------------- scenario
 
@@ -197,6 +314,12 @@ type scenario struct {
 	bytesOK   int64 // bytes the client was told were flushed on the current connection
 	processed int32 // packs the worker is done with (flushed events)
 	notes     []string
+
+	optObj    map[string]wnet.TcpClientOption // shared option objects (under mu)
+	builtAt   time.Time // when the send in progress began (last Built hook; under mu)
+	flushedID int32     // atomic: pack of the last Flushed hook
+	ndeco     int       // decorated option lists made so far (enumerates the merge orders)
+	nearly    int       // expired deadlines reported sooner than Timeout after the send began (statistics)
 
 	nsend   int      // sender goroutines used (statistics)
 	nextID  int      // last pack id handed out
@@ -324,6 +447,7 @@ func (sc *scenario) hook(name string, args ...interface{}) {
 			a = sname(ps.sender)
 		}
 		sc.curID = ps.id
+		sc.builtAt = time.Now()
 		sc.add(t, t, core.Ev{"ev": "Built", "a": a, "id": ps.id, "flen": flen})
 		g = sc.gates[fmt.Sprintf("built:%d", ps.id)]
 	case "connect":
@@ -360,7 +484,8 @@ func (sc *scenario) hook(name string, args ...interface{}) {
 			// the drainer will close and re-dial: it is not idle again before that dial has returned
 			atomic.StoreInt32(&sc.connected, 0)
 		}
-		sc.add(t, t, core.Ev{"ev": "Sent", "a": sc.actor(), "err": err, "tmo": err && isTimeout(args[0])})
+		tmo := err && isTimeout(args[0])
+		sc.add(t, t, core.Ev{"ev": "Sent", "a": sc.actor(), "err": err, "tmo": tmo, "early": tmo && sc.early()})
 		g = sc.gates[fmt.Sprintf("sent:%d", sc.curID)]
 	case "flushed":
 		err := args[1] != nil
@@ -370,7 +495,9 @@ func (sc *scenario) hook(name string, args ...interface{}) {
 			atomic.StoreInt32(&sc.connected, 0) // as above: the worker closes after a failed flush
 		}
 		sc.accum = 0
-		sc.add(t, t, core.Ev{"ev": "Flushed", "a": sc.actor(), "err": err, "tmo": err && isTimeout(args[1])})
+		tmo := err && isTimeout(args[1])
+		sc.add(t, t, core.Ev{"ev": "Flushed", "a": sc.actor(), "err": err, "tmo": tmo, "early": tmo && sc.early()})
+		atomic.StoreInt32(&sc.flushedID, int32(sc.curID))
 		atomic.AddInt32(&sc.processed, 1)
 	case "close":
 		atomic.StoreInt32(&sc.connected, 0)
@@ -397,14 +524,12 @@ func (sc *scenario) send(ps *packSpec) bool {
 	sc.packs[p] = ps
 	sc.mu.Unlock()
 	var opts []wnet.TcpClientOption
-	if ps.style == 1 {
-		if ps.lic != "" {
-			opts = append(opts, wnet.WithLicense("overridden-"+ps.lic), wnet.WithPriority(true), wnet.WithLicense(ps.lic))
+	for _, o := range ps.options() {
+		if ps.share {
+			opts = append(opts, sc.sharedOpt(o))
 		} else {
-			opts = append(opts, wnet.WithSecureFlag(1), wnet.WithLicense(""))
+			opts = append(opts, o.make())
 		}
-	} else if ps.lic != "" {
-		opts = append(opts, wnet.WithLicense(ps.lic))
 	}
 	// every public way of handing a pack to the client
 	call := func() error {
@@ -571,6 +696,36 @@ func isTimeout(e interface{}) bool {
 		return ne.Timeout()
 	}
 	return strings.Contains(err.Error(), "i/o timeout")
+}
+
+// early (caller holds mu): the expired write deadline the client just reported came sooner than the client's Timeout
+// after the send in progress began (Built hook, which precedes every SetWriteDeadline of that send and of the flush
+// that follows it).  A deadline of now+Timeout set during this send cannot expire that soon, however loaded the
+// machine is (load only makes the elapsed time longer): the peer did not stall, the client's own deadline
+// bookkeeping is wrong.  1/20 of slack for clock granularity.
+func (sc *scenario) early() bool {
+	d := sc.cl.Timeout
+	e := !sc.builtAt.IsZero() && d > 0 && time.Since(sc.builtAt) < d-d/20
+	if e {
+		sc.nearly++
+	}
+	return e
+}
+
+// sharedOpt: one option OBJECT per distinct option of the scenario, handed to every send that asks for it (option
+// values are plain arguments: a caller may build them once and pass them to many sends, from many goroutines).
+func (sc *scenario) sharedOpt(o optItem) wnet.TcpClientOption {
+	sc.mu.Lock()
+	defer sc.mu.Unlock()
+	if sc.optObj == nil {
+		sc.optObj = map[string]wnet.TcpClientOption{}
+	}
+	v, ok := sc.optObj[o.String()]
+	if !ok {
+		v = o.make()
+		sc.optObj[o.String()] = v
+	}
+	return v
 }
 
 func (sc *scenario) note(s string) {
